@@ -108,12 +108,24 @@ pub fn reference(input: &[u8]) -> Expect {
 
 // ---------------------------------------------------------------- subprocess
 
+/// placeholder for a FIFO fed with the input
+const FIFO_ARG: &str = "@FIFO";
+
 fn run_cli(argv: &[String], input: &[u8]) -> CliOut {
     let mut file = None;
     let args: Vec<OsString> = argv
         .iter()
         .map(|a| {
-            if a == FILE_ARG {
+            if a == FIFO_ARG {
+                match cli::fifo_with(root(), input) {
+                    Some(p) => {
+                        let s = p.clone().into_os_string();
+                        file = Some(p);
+                        s
+                    }
+                    None => OsString::from("/nonexistent/fifo"),
+                }
+            } else if a == FILE_ARG {
                 let p = cli::temp_file(root(), input);
                 let s = p.clone().into_os_string();
                 file = Some(p);
@@ -143,6 +155,8 @@ fn argv(op: &str, channel: u8) -> Vec<String> {
 
 fn channel_label(argv: &[String]) -> &'static str {
     match argv.last().map(String::as_str) {
+        Some(FIFO_ARG) => "channel-fifo",
+        Some("/dev/stdin") => "channel-dev-stdin",
         Some(FILE_ARG) => "channel-file",
         Some("-") => "channel-stdin-dash",
         _ => "channel-stdin-default",
@@ -850,7 +864,7 @@ fn setup(ctx: &Ctx) {
 
 pub fn run(ctx: &mut Ctx) {
     setup(ctx);
-    ctx.rule = "CLI subprocess runs of the overflow-checked build, input by stdin (default and explicit `-`) and by file (with decoy stdin). (a) byte strings of length 0..=4096 (uniform bytes; all-0, all-ff, every byte value in turn, text, white-space bytes, hex-looking text, UTF-8, trailing line ends, bytes >= 0x80, control bytes; every single byte value and every length of a range as sweeps): `hex encode` must print exactly 0x + lower-case digits + newline and `hex decode` of that very output must return the bytes. (b) the digits of such strings re-spelled: 0x present/absent, digit case lower/upper/random/alternating, 11 white-space layouts over the six ASCII white-space characters {space, tab, LF, VT, FF, CR} (ends, between bytes, between the two digits of a byte, wrapped lines, after the prefix, dense runs): must decode to the same bytes. (c) malformed inputs made from a well-formed spelling by one defect (digit dropped/added, non-hex character inserted/replacing a digit/at either end, second or misplaced prefix, bytes that are not UTF-8), every byte value at six positions, all 484 two-digit spellings, hand-written tables: error exit and empty stdout. Oracle: a reference decoder written from the property text (own nibble table; decides only space/tab/LF/CR, lower-case 0x with no white space inside). Undecided inputs (other white space, white space inside the prefix, 0X) are only required not to panic. Non-trivial: data non-empty and not ASCII text (round trip: distinct by data; layouts: spelling differs from the canonical one, distinct by input text), malformed inputs with at least two hex digits (distinct by input).".into();
+    ctx.rule = "CLI subprocess runs of the overflow-checked build, input by stdin (default and explicit `-`), by file (with decoy stdin), and - in a fixed table of lengths 0..70000 and malformed texts - by paths that are not regular files (/dev/stdin, a FIFO). (a) byte strings of length 0..=4096 (uniform bytes; all-0, all-ff, every byte value in turn, text, white-space bytes, hex-looking text, UTF-8, trailing line ends, bytes >= 0x80, control bytes; every single byte value and every length of a range as sweeps): `hex encode` must print exactly 0x + lower-case digits + newline and `hex decode` of that very output must return the bytes. (b) the digits of such strings re-spelled: 0x present/absent, digit case lower/upper/random/alternating, 11 white-space layouts over the six ASCII white-space characters {space, tab, LF, VT, FF, CR} (ends, between bytes, between the two digits of a byte, wrapped lines, after the prefix, dense runs): must decode to the same bytes. (c) malformed inputs made from a well-formed spelling by one defect (digit dropped/added, non-hex character inserted/replacing a digit/at either end, second or misplaced prefix, bytes that are not UTF-8), every byte value at six positions, all 484 two-digit spellings, hand-written tables: error exit and empty stdout. Oracle: a reference decoder written from the property text (own nibble table; decides only space/tab/LF/CR, lower-case 0x with no white space inside). Undecided inputs (other white space, white space inside the prefix, 0X) are only required not to panic. Non-trivial: data non-empty and not ASCII text (round trip: distinct by data; layouts: spelling differs from the canonical one, distinct by input text), malformed inputs with at least two hex digits (distinct by input).".into();
     ctx.assumptions = vec![
         "exit 255 or 2 without panic text is an ordinary error; nothing is required of stderr".into(),
         "white space other than the six ASCII characters space, tab, LF, VT, FF, CR (that is, non-ASCII Unicode white space, zero-width characters, 0x1c-0x1f), white space inside the 0x prefix and an upper-case 0X prefix are not decided by the property (checked for absence of panic only)".into(),
@@ -898,6 +912,33 @@ pub fn run(ctx: &mut Ctx) {
         .collect();
     ctx.run_cases("roundtrip-length", &by_len, judge_roundtrip);
     ctx.exhaustive_parts.push(format!("round trip at every length 0..=300 and every {step}th length up to 4096 (random content)"));
+
+    // input paths that are not regular files: /dev/stdin and a FIFO (their size is reported as 0)
+    let special = |op: &str, path: &str| vec!["hex".to_string(), op.to_string(), path.to_string()];
+    let mut sp_rt = vec![];
+    let mut sp_dec = vec![];
+    for (i, len) in [0usize, 1, 2, 3, 33, 100, 1023, 1024, 1025, 4096, 5000, 70_000].iter().enumerate() {
+        let mut p = Prng::new(ctx.sub_seed("special-paths", *len as u64));
+        let mut data = p.bytes(*len);
+        if *len >= 3 {
+            data[len / 2] = b'\n';
+        }
+        for (e, dch) in [("/dev/stdin", FIFO_ARG), (FIFO_ARG, "/dev/stdin"), (FIFO_ARG, FIFO_ARG), ("/dev/stdin", "/dev/stdin")] {
+            if (i + e.len() + dch.len()) % 2 == 0 || *len <= 3 {
+                sp_rt.push(RoundTrip { data_hex: hex_lower(&data), encode_argv: special("encode", e), decode_argv: special("decode", dch) });
+            }
+        }
+    }
+    for path in ["/dev/stdin", FIFO_ARG] {
+        for m in [&b"0x123"[..], b"0xzz", b"f", b"0x00 0", b"12 3g"] {
+            sp_dec.push(Decode { argv: special("decode", path), input_hex: hex_lower(m), input_preview: preview(m), model: Model::default() });
+        }
+        for (text, bytes) in [("0x00ff", &[0x00u8, 0xff][..]), ("de ad\nbe ef\n", &[0xde, 0xad, 0xbe, 0xef][..]), ("", &[][..])] {
+            sp_dec.push(Decode { argv: special("decode", path), input_hex: hex_lower(text.as_bytes()), input_preview: preview(text.as_bytes()), model: Model { data_hex: Some(hex_lower(bytes)), ..Model::default() } });
+        }
+    }
+    ctx.run_cases("special-paths", &sp_rt, judge_roundtrip);
+    ctx.run_cases("special-paths-decode", &sp_dec, judge_decode);
 
     // (b)
     ctx.run_prop("layout", t.pick(1500, 40_000), layout_strategy, judge_decode);
@@ -989,11 +1030,11 @@ fn replay_inner(sub: &str, case: &Value) -> (Option<Verdict>, bool) {
     let mut cls = Classifier::default();
     let bad = |e: serde_json::Error| fail("a case of this sub-check's type", format!("{e}"), "replay file does not match the sub-check's case type");
     let v = match sub {
-        "roundtrip" | "roundtrip-single-byte" | "roundtrip-length" => match serde_json::from_value::<RoundTrip>(case.clone()) {
+        "roundtrip" | "roundtrip-single-byte" | "roundtrip-length" | "special-paths" => match serde_json::from_value::<RoundTrip>(case.clone()) {
             Ok(c) => judge_roundtrip(&c, &mut cls),
             Err(e) => bad(e),
         },
-        "layout" | "layout-fixed" | "pair-sweep" | "malformed" | "malformed-fixed" | "char-sweep" | "unspecified" | "unspecified-fixed" | "decode" => {
+        "layout" | "layout-fixed" | "pair-sweep" | "malformed" | "malformed-fixed" | "char-sweep" | "unspecified" | "unspecified-fixed" | "decode" | "special-paths-decode" => {
             match serde_json::from_value::<Decode>(case.clone()) {
                 Ok(c) => judge_decode(&c, &mut cls),
                 Err(e) => bad(e),
